@@ -98,7 +98,7 @@ def _one(chk, fi, fname, ex, rules):
         if cl is None:
             chk.fail(_f("R4", fi, fname, ex, "cache-never-written",
                         "the cached status of an earlier run is never cleared"))
-        elif cl[1] == "final" and cl[0] != "after" and f["n_run"] != 0:
+        elif cl[1] == "final" and f["cache_then_child"]:
             chk.fail(_f("R4", fi, fname, ex, "stale-cached-status",
                         "a final status cached while children were still running is still cached at exit: "
                         "later reads do not recompute it from the children"))
